@@ -193,6 +193,53 @@ pub fn strategy(max_ops: usize) -> BoxedStrategy<Case> {
         .boxed()
 }
 
+/// timer_stats as a function of its direct inputs: pool (hook), first reading t, second reading
+/// t + d, with boundary values for both (every power of two, +-1, negated)
+#[derive(Clone, Debug, Serialize, Deserialize)]
+pub struct StatsCase {
+    pub pool: u64,
+    pub t: u64,
+    pub d: u64,
+    pub var_rounds: bool,
+    pub mid: [u64; 2],
+}
+
+pub fn check_stats(c: &StatsCase) -> CheckResult {
+    let t2 = c.t.wrapping_add(c.d);
+    let readings = if c.var_rounds { vec![c.t, c.mid[0], c.mid[1], t2] } else { vec![c.t, t2] };
+    let script = crate::timer::Script::new(readings, 1);
+    let mut g = adapter::jitter_gen(script, None, 64);
+    let hooked = g.jitter().unwrap().set_pool(c.pool);
+    let r = catch(|| g.jitter().unwrap().timer_stats(c.var_rounds));
+    let got = match r {
+        Caught::Ok(v) => v,
+        Caught::Panic(rec) => return Err(Fail::new(panic_signature(&rec), format!("timer_stats({}) panicked for readings t = {:#x}, t2 = {:#x}: {}", c.var_rounds, c.t, t2, rec))),
+        Caught::Budget => return Err(Fail::new("C12:reads:timer_stats", "timer_stats read the timer more than 64 times")),
+    };
+    let want = t2.wrapping_sub(c.t) as i64;
+    if got != want {
+        return Err(Fail::new("C12:value:timer_stats", "timer_stats does not return the (wrapping) difference of its two time stamps").exp_act(want, got));
+    }
+    let reads = g.jitter().unwrap().reads();
+    if reads != if c.var_rounds { 4 } else { 2 } {
+        return Err(Fail::new("C12:reads:timer_stats", "timer_stats consumed a wrong number of timer readings").exp_act(if c.var_rounds { 4 } else { 2 }, reads));
+    }
+    if hooked {
+        let pool = g.jitter().unwrap().pool().unwrap_or(0);
+        let want_pool = crate::refmodel::jitter::fold(c.pool, c.t);
+        if pool != want_pool {
+            return Err(Fail::new("C12:pool:timer_stats", "timer_stats did not fold exactly its first reading (all 64 bits) into the pool").exp_act(format!("{:#018x}", want_pool), format!("{:#018x}", pool)));
+        }
+    }
+    Ok(CaseInfo::new(c.d != 0).class(if c.var_rounds { "var_rounds" } else { "minimal" }).class_if(c.d >> 63 == 1, "backwards").class_if(c.d == 1 << 63, "delta=2^63"))
+}
+
+pub fn stats_strategy() -> BoxedStrategy<StatsCase> {
+    (prop_oneof![any::<u64>(), gens::boundary_u64()], prop_oneof![2 => gens::boundary_u64(), 1 => any::<u64>()], prop_oneof![3 => gens::boundary_u64(), 2 => gens::hostile_delta(), 1 => 1u64..5000], any::<bool>(), [any::<u64>(), any::<u64>()])
+        .prop_map(|(pool, t, d, var_rounds, mid)| StatsCase { pool, t, d, var_rounds, mid })
+        .boxed()
+}
+
 pub fn def(ctx: &Ctx) -> PropDef {
     let t = ctx.tier;
     let mut subs: Vec<Box<dyn SubCheck>> = Vec::new();
@@ -200,6 +247,7 @@ pub fn def(ctx: &Ctx) -> PropDef {
     for part in 0..16 {
         subs.push(PSub::boxed(format!("history/{}", part), t.pick(1500, 150_000), move || strategy(max_ops), check));
     }
+    subs.push(PSub::boxed("timer-stats-pairs", t.pick(20_000, 2_000_000), stats_strategy, check_stats));
     if ctx.tier == crate::engine::Tier::Thorough {
         subs.push(crate::props::fuzzsub::FuzzSub::boxed("fz_jitter", "C12", 150000, false));
         subs.push(crate::props::fuzzsub::FuzzSub::boxed("fz_jitter", "C12", 150000, true));
